@@ -77,6 +77,39 @@ fn tx_script(kind: &str, rng: &mut Rng, t: usize, tag: &mut u64, ps: u64) -> TxS
                 }
             }
         }
+        "top-level-bucket-cycle" => {
+            // the data lives in top-level buckets (the root directory is a small tree of its own); a cycle of
+            // three transactions creates 24 of them, deletes the first half and deletes the second half - the
+            // deleting transactions open nothing, so they FREE pages (leaves of the directory, the buckets'
+            // pages) and may write none themselves
+            ops.clear();
+            // (the number of buckets and the cut between the two deletions move from cycle to cycle, so that
+            // now and then a deletion removes exactly the buckets of one leaf of a two-leaf directory: the root
+            // then collapses onto a page the transaction never loaded)
+            let c = t / 3;
+            let n = 12 + c % 14;
+            let cut = (n / 2 + (c / 14) % 5).saturating_sub(2).clamp(1, n - 1);
+            let name = |i: usize| K { pre: format!("b{:02}", i).into_bytes(), fill: 0, post: vec![] };
+            match t % 3 {
+                0 => {
+                    for i in 0..n {
+                        ops.push(Op::TxGetOrCreate { k: name(i), how: How::Slice });
+                        *tag += 1;
+                        ops.push(Op::Put { h: i as H, k: key(t % 7), v: V { tag: *tag, len: 40 + (t % 5) * 100 }, how: How::Slice, vhow: How::Slice });
+                    }
+                }
+                1 => {
+                    for i in 0..cut {
+                        ops.push(Op::TxDelete { k: name(i), how: How::Slice });
+                    }
+                }
+                _ => {
+                    for i in cut..n {
+                        ops.push(Op::TxDelete { k: name(i), how: How::Slice });
+                    }
+                }
+            }
+        }
         "fixed-size-overwrite" | "after-reader-churn" => {
             for _ in 0..8 {
                 let i = rng.usize(nkeys);
@@ -168,6 +201,7 @@ pub struct Outcome {
     pub multi_page_freelist: bool,
     pub churn_readers: u64,
     pub exactness_checks: u64,
+    pub free_only_commits: u64,
     pub churn_end: usize,
 }
 
@@ -233,6 +267,9 @@ impl<'c> State<'c> {
         let newly: u64 = rep.reachable.difference(&self.prev_reach).count() as u64 + rep.freelist_run.len() as u64;
         if t > 0 {
             o.max_delta = o.max_delta.max(newly);
+            if rep.reachable.difference(&self.prev_reach).next().is_none() && self.prev_reach.difference(&rep.reachable).next().is_some() {
+                o.free_only_commits += 1; // pages left the tree and not one tree page was written
+            }
         }
         let ph = self.prev_hwm;
         o.reuse += rep.reachable.difference(&self.prev_reach).filter(|p| **p < ph).count() as u64;
@@ -293,6 +330,7 @@ pub fn run_case(c: &Case, path: &std::path::Path) -> Outcome {
             multi_page_freelist: false,
             churn_readers: 0,
             exactness_checks: 0,
+            free_only_commits: 0,
             churn_end: 0,
         },
     };
@@ -537,12 +575,17 @@ fn judge(c: &Case, o: &mut Outcome) {
 }
 
 pub fn cases(ctx: &Ctx) -> Vec<Case> {
-    let t = ctx.scale(if ctx.thorough() { 5000 } else { 300 }) as usize;
+    let t = ctx.scale(if ctx.thorough() { 5000 } else { 900 }) as usize;
     let mut v = Vec::new();
     let mut i = 0u64;
     for kind in ["fixed-size-overwrite", "delete-reinsert", "bucket-create-delete-overflow"] {
         i += 1;
         v.push(Case { kind: kind.to_string(), pagesize: 1024, txs: t, reopen_every: 0, reader: (0, 0), handover: kind != "bucket-create-delete-overflow", readers: vec![], seed: ctx.seed.wrapping_mul(977).wrapping_add(i) });
+    }
+    // commits that only free pages, with a reopen after every (second, third) commit
+    for re in [1usize, 2, 3] {
+        i += 1;
+        v.push(Case { kind: "top-level-bucket-cycle".to_string(), pagesize: 1024, txs: if re == 1 { t.clamp(210, 900) } else { (t / 2).clamp(90, 600) }, reopen_every: re, reader: (0, 0), handover: false, readers: vec![], seed: ctx.seed.wrapping_mul(977).wrapping_add(i) });
     }
     i += 1;
     v.push(Case { kind: "bucket-create-delete-overflow".to_string(), pagesize: 1024, txs: t, reopen_every: 25, reader: (0, 0), handover: false, readers: vec![], seed: ctx.seed.wrapping_mul(977).wrapping_add(i) });
@@ -659,6 +702,7 @@ pub fn run(ctx: &Ctx) -> Shard {
         shard.count("transactions", o.hwm.len() as u64);
         shard.count("fileck_conservation_checks", o.fileck_runs);
         shard.count("writer_begins_whose_free_set_was_compared_with_the_unreachable_pages", o.exactness_checks);
+        shard.count("commits_that_freed_pages_without_writing_a_tree_page", o.free_only_commits);
         shard.count("pages_allocated_below_previous_hwm(reuse)", o.reuse);
         shard.count("max_hwm", 0);
         if o.churn_readers > 0 {
